@@ -619,7 +619,9 @@ fn fully_qualified_type_ref_impl(out: &mut String, type_ref: &Type) -> Result<()
         Type::Unresolved(_) => panic!("received unresolved type {:?}", type_ref),
         Type::Raw(path) => {
             if path.len() == 1 && path.last() == Some(&"void".into()) {
-                write!(out, "::std::ffi::c_void")
+                // `c_void` is one byte and only stands for what a pointer points to;
+                // by value, `void` has no size, like the unit type.
+                write!(out, "()")
             } else {
                 // todo: re-evaluate this hack
                 if path.len() > 1 {
@@ -630,11 +632,11 @@ fn fully_qualified_type_ref_impl(out: &mut String, type_ref: &Type) -> Result<()
         }
         Type::ConstPointer(tr) => {
             write!(out, "*const ")?;
-            fully_qualified_type_ref_impl(out, tr.as_ref())
+            fully_qualified_pointee_impl(out, tr.as_ref())
         }
         Type::MutPointer(tr) => {
             write!(out, "*mut ")?;
-            fully_qualified_type_ref_impl(out, tr.as_ref())
+            fully_qualified_pointee_impl(out, tr.as_ref())
         }
         Type::Array(tr, size) => {
             write!(out, "[")?;
@@ -655,6 +657,17 @@ fn fully_qualified_type_ref_impl(out: &mut String, type_ref: &Type) -> Result<()
             }
             Ok(())
         }
+    }
+}
+
+fn fully_qualified_pointee_impl(out: &mut String, type_ref: &Type) -> Result<(), std::fmt::Error> {
+    use std::fmt::Write;
+
+    match type_ref {
+        Type::Raw(path) if path.len() == 1 && path.last() == Some(&"void".into()) => {
+            write!(out, "::std::ffi::c_void")
+        }
+        _ => fully_qualified_type_ref_impl(out, type_ref),
     }
 }
 
